@@ -8,6 +8,7 @@ package vsync
 import (
 	"fmt"
 	"runtime"
+	"runtime/debug"
 	"sync"
 )
 
@@ -93,6 +94,7 @@ func (s *Session) newThread(name string, f func()) *thread {
 	s.wg.Add(1)
 	go func() {
 		defer s.wg.Done()
+		debug.SetPanicOnFault(true)
 		<-t.wake
 		if s.aborting {
 			return
@@ -380,7 +382,20 @@ func Yield() {
 func Go(f func()) {
 	s := S
 	if s == nil {
-		go f()
+		go func() {
+			// a fault on the (possibly damaged) mapping becomes a panic the code under test can recover
+			debug.SetPanicOnFault(true)
+			// A panic escaping a goroutine of the code under test would kill the process. The harness keeps the
+			// worker alive instead and records it: callers must treat a non-empty TakeGoPanic() as a process crash.
+			defer func() {
+				if r := recover(); r != nil {
+					goPanicMu.Lock()
+					goPanic = fmt.Sprintf("%v", r)
+					goPanicMu.Unlock()
+				}
+			}()
+			f()
+		}()
 		return
 	}
 	if s.aborting {
@@ -388,6 +403,21 @@ func Go(f func()) {
 	}
 	s.newThread(fmt.Sprintf("go%d", s.nextTID), f)
 	s.point("go")
+}
+
+var (
+	goPanicMu sync.Mutex
+	goPanic   string
+)
+
+// TakeGoPanic returns (and clears) the panic that escaped a goroutine started by the code under test in
+// pass-through mode; "" if none. In a real process such a panic is a crash.
+func TakeGoPanic() string {
+	goPanicMu.Lock()
+	defer goPanicMu.Unlock()
+	p := goPanic
+	goPanic = ""
+	return p
 }
 
 // GoNamed is Go with a thread name for reports; it returns after the scheduling point.
